@@ -1600,20 +1600,15 @@ def oracle_outside_get(qs0, refusals, good):
     g = req.GET
     cur_qs = qs0
     for n, (method, kind, key) in enumerate(refusals):
-        # d[k] = v (and update, which is d[k] = v per item) is "delete every pair under k, then append": the delete is
-        # a successful write of its own, so on an EXISTING key the old pairs are gone before the append is refused.
-        # What must hold there is coherence (no refused pair in any view, QUERY_STRING = the view), not "unchanged".
-        k = _bad_pair(kind, key)[0]
-        deletes = method in ("setitem", "update", "update-kw") and any(kv[0] == k for kv in before)
+        # d[k] = v (and update, which is d[k] = v per item) removes the key's old pairs and appends the new one in ONE
+        # write-back (GetDict.__setitem__, fix 0ef2f53): when the value is refused nothing was written, so the old pairs
+        # must still be there — "unchanged", like every other refused write.
         r = _refused_write(g, method, kind, key)
         if r is None:
             continue
         what = "refused write #%d %s(%s) under key %r on %r" % (n + 1, method, kind, key, qs0)
         if not isinstance(r, Err) or r.name not in ("UnicodeEncodeError", "AttributeError", "TypeError"):
             return "outside:get-bad-value-not-refused", "%s: returned %r" % (what, r)
-        if deletes:
-            before = [kv for kv in before if kv[0] != k]
-            cur_qs = env["QUERY_STRING"]
         if env["QUERY_STRING"] != cur_qs:
             return "outside:query-string-half-written", "%s: QUERY_STRING became %r" % (what, env["QUERY_STRING"])
         held = [list(kv) for kv in g.items()]
